@@ -198,29 +198,44 @@ GENERIC_GRID: list[Any] = (
 )
 
 
-def _ints_strategy() -> st.SearchStrategy:
-    return st.one_of(
-        st.integers(-2, 300),
-        st.sampled_from(_INTS),
-        st.integers(0, 70).map(lambda k: 2**k),
-        st.integers(0, 70).map(lambda k: 2**k - 1),
-        st.integers(0, 70).map(lambda k: -(2**k)),
-        st.integers(-(2**70), 2**70),
-    )
+_SPECIAL = [INF, NINF, NAN]
 
 
-def _floats_strategy() -> st.SearchStrategy:
-    return st.one_of(
-        st.floats(allow_nan=False, allow_infinity=False, width=64),
-        st.floats(-300, 700, allow_nan=False),
-        st.integers(-2, 300).flatmap(lambda i: st.sampled_from([i + 0.4, i + 0.5, i + 0.6, i - 0.4])),
-        st.sampled_from(_FLOATS),
-        st.sampled_from([INF, NINF, NAN]),
-    )
+def _mk_number(t: tuple) -> Any:
+    """Cheap number generator: a few primitive draws, arithmetic here (nested one_of / flatmap
+    strategies cost ~1 ms per draw, which dominated the run)."""
+    mode, small, k, f = t
+    if mode == 0:
+        return small
+    if mode == 1:
+        return 2**k
+    if mode == 2:
+        return 2**k - 1
+    if mode == 3:
+        return -(2**k)
+    if mode == 4:
+        return small + (0.5, 0.4, 0.6, -0.4)[k % 4]
+    if mode == 5:
+        return F(f)
+    if mode == 6:
+        return _FLOATS[small % len(_FLOATS)]
+    if mode == 7:
+        return _INTS[small % len(_INTS)]
+    if mode == 8:
+        return _SPECIAL[small % 3]
+    if mode == 9:
+        return bool(small % 2)
+    if mode == 10:
+        return small * 2**k
+    return F(f % 1000.0 - 300.0) if f == f else small
 
 
 def numbers_strategy() -> st.SearchStrategy:
-    return st.one_of(_ints_strategy(), _floats_strategy(), st.booleans())
+    return st.tuples(st.integers(0, 11), st.integers(-300, 300), st.integers(0, 70), st.floats(allow_nan=False, allow_infinity=False)).map(_mk_number)
+
+
+def _ints_strategy() -> st.SearchStrategy:
+    return st.tuples(st.sampled_from([0, 0, 1, 2, 3, 7, 10]), st.integers(-300, 300), st.integers(0, 70), st.just(0.0)).map(_mk_number)
 
 
 def scalar_strategy() -> st.SearchStrategy:
